@@ -22,7 +22,7 @@ class Include:
     """
     Rule to parse #include directives.
     """
-    rule = (INCLUDE + LOPBRACK + CharsNotIn('>')("header") +
+    rule = (INCLUDE + LOPBRACK + CharsNotIn('>\n')("header") +
             ROPBRACK).setParseAction(lambda t: Include(t.header))
 
     def __init__(self, header: CharsNotIn, parent: str = ''):
